@@ -3,7 +3,7 @@
    ReadOptions query codec on decoded pairs; decimal numbers as Rust prints/parses them.  All by
    induction on digits/numbers, not enumeration.  Percent-encoding, JSON syntax and the scru128
    text form are oracles (exercised by the codec engine on every run). *)
-From XS Require Import Model.Codec Model.Json Proofs.CodecP Proofs.JsonP.
+From XS Require Import Model.Codec Model.Json Proofs.CodecP Proofs.JsonP Proofs.JsonP2.
 
 Theorem C12_ttl_roundtrip : forall t, ttl_wf t = true -> parse_ttl (ttl_to_string t) = Some t.
 Proof. exact parse_ttl_roundtrip. Qed.
@@ -87,3 +87,29 @@ Print Assumptions C12_frame_poison.
 Print Assumptions C12_accepted_reads_back.
 Print Assumptions C12_pinned_accepts_poison_refuted.
 Check float_lexeme_ex.
+
+(* the same with float lexemes inside the meta (f64 printing itself stays an oracle) *)
+Theorem C12_frame_roundtrip_floats : forall print_id parse_id parse_hash (hash_ok : bytes -> Prop),
+  (forall i, i < two128 -> parse_id (print_id i) = Some i) ->
+  (forall h, hash_ok h -> parse_hash h = Some h) ->
+  forall f, wf_frame' hash_ok f -> (meta_nest f < 127)%nat ->
+  decode_frame parse_id parse_hash (encode_frame print_id f) = Some f.
+Proof. exact frame_roundtrip'. Qed.
+Theorem C12_frame_poison_floats : forall print_id parse_id parse_hash (hash_ok : bytes -> Prop),
+  (forall i, i < two128 -> parse_id (print_id i) = Some i) ->
+  (forall h, hash_ok h -> parse_hash h = Some h) ->
+  forall f, wf_frame' hash_ok f -> (127 <= meta_nest f)%nat ->
+  decode_frame parse_id parse_hash (encode_frame print_id f) = None.
+Proof. exact frame_poison'. Qed.
+(* the parser does not depend on how much fuel it is given beyond what it needs, and ignores
+   surrounding whitespace *)
+Theorem C12_parser_fuel_mono : forall fuel fuel' depth s r, (fuel <= fuel')%nat ->
+  parse_value fuel depth s = Some r -> parse_value fuel' depth s = Some r.
+Proof. exact parse_value_fuel_mono. Qed.
+Theorem C12_parser_whitespace : forall v s, parse_json s = Some v ->
+  parse_json (s ++ [32]) = Some v /\ parse_json (32 :: s) = Some v.
+Proof. exact parse_json_ws. Qed.
+Print Assumptions C12_frame_roundtrip_floats.
+Print Assumptions C12_frame_poison_floats.
+Print Assumptions C12_parser_fuel_mono.
+Print Assumptions C12_parser_whitespace.
